@@ -84,7 +84,7 @@ class ArrList:
     def __init__(self, name, fields, arrs=None, length=None, elem_cls='elem'):
         self.name, self.fields, self.elem_cls = name, dict(fields), elem_cls
         self.arrs = arrs if arrs is not None else {
-            f: z3.Const(f'{name}.{f}!{next(_fresh)}', z3.ArraySort(INT, s)) for f, s in self.fields.items()}
+            f: fresh(f'{name}.{f}', z3.ArraySort(INT, s)) for f, s in self.fields.items()}
         self.length = z3.IntVal(0) if length is None else length
 
     def appended(self, item):
@@ -153,10 +153,18 @@ class Opaque:
 
 
 _fresh = itertools.count()
+_counter = [0]
+
+
+def reset_fresh():
+    """Fresh names restart per function under contract, so one function's VCs do not depend on how many
+    names another function consumed (solver behaviour would otherwise change with unrelated edits)."""
+    _counter[0] = 0
 
 
 def fresh(name, sort=None):
-    return z3.Const(f'{name}!{next(_fresh)}', INT if sort is None else sort)
+    _counter[0] += 1
+    return z3.Const(f'{name}!{_counter[0]}', INT if sort is None else sort)
 
 
 def is_sym(v):
